@@ -108,13 +108,13 @@ func (tree *Tree[T]) Name() string { return tree.name }
 //
 // methods 可以为空，表示采用 [AnyMethods] 中的值。
 func (tree *Tree[T]) Add(pattern string, h T, ms []types.Middleware[T], methods ...string) error {
-	if err := tree.checkAmbiguous(pattern); err != nil {
-		return err
-	}
-
 	if tree.locker != nil {
 		tree.locker.Lock()
 		defer tree.locker.Unlock()
+	}
+
+	if err := tree.checkAmbiguous(pattern); err != nil {
+		return err
 	}
 
 	n, err := tree.getNode(pattern)
@@ -238,11 +238,17 @@ func (tree *Tree[T]) Handler(ctx *types.Context, method string) (types.Node, T, 
 		return tree.node, tree.trace, true
 	}
 
+	// 节点的查找以及对 node.handlers 的读取必须在同一个锁的范围之内
+	if tree.locker != nil {
+		tree.locker.RLock()
+		defer tree.locker.RUnlock()
+	}
+
 	var node *node[T]
 	if ctx.Path == "*" || ctx.Path == "" {
 		node = tree.node
 	} else {
-		node = tree.match(ctx)
+		node = tree.node.matchChildren(ctx)
 	}
 
 	if node == nil || node.size() == 0 {
@@ -283,6 +289,11 @@ func (tree *Tree[T]) Find(pattern string) *node[T] { return tree.node.find(patte
 //
 // NOTE: 会检测 pattern 是否存在于 tree 中。
 func (tree *Tree[T]) URL(buf *errwrap.StringBuilder, pattern string, ps map[string]string) error {
+	if tree.locker != nil {
+		tree.locker.RLock()
+		defer tree.locker.RUnlock()
+	}
+
 	n := tree.Find(pattern)
 	if n == nil {
 		return fmt.Errorf("%s 并不是一条有效的注册路由项", pattern)
